@@ -288,3 +288,5 @@ Print Assumptions C14_stable_forever.
 Print Assumptions C14_evolution_conserves.
 Print Assumptions C14_evolution_closed.
 Print Assumptions C14_sandpile_conserves_all_modes.
+From CPL Require Import gen.GenFuns GenProps.GenFunsEquivC14 GenProps.C14Src. (* source tie: gen/GenFuns.v is regenerated from sandpile.py on every run *)
+Theorem C14_source_tie : (forall (rows cols : nat) (c : nat * nat), src_sandpile_is_in_boundary (Z.of_nat rows) (Z.of_nat cols) (zcell c) = in_boundary rows cols c) /\ (forall (rows cols : nat) (closed : bool) (adds : list addition) (n : nbhd2) (c : nat * nat) (t : nat), src_sandpile_call (Z.of_nat rows) (Z.of_nat cols) closed (map zaddition adds) (nb_vals n) (zcell c) (Z.of_nat t) = sandpile_call rows cols closed adds n c t). Proof. exact C14_source_translation_agrees. Qed. Print Assumptions C14_source_tie.
